@@ -506,24 +506,36 @@ class Loops:
                 body = z3.Implies(z3.And(*delta(s)), at(new.term, ln(oldt) + k) == val)
                 ft.assume(z3.ForAll([k] + created(s), body))
         else:
-            x = z3.Const(f"x!acc{fresh_id()}", m.sort(et))
+            # (1) every new position holds an element contributed by some iteration
+            j2 = z3.Int(f"j2!acc{fresh_id()}")
+            xj = at(new.term, j2)
             disj = []
             for idx, (kind, c) in contribs:
                 s = normal_paths[idx][0]
                 if kind == "items":
                     if not c:
                         continue
-                    mem = z3.Or(*[x == ex.to_term(s, it, et) for it in c])
+                    mem = z3.Or(*[xj == ex.to_term(s, it, et) for it in c])
                 else:
                     jj = z3.Int(f"jj!acc{fresh_id()}")
-                    mem = z3.Exists([jj], z3.And(0 <= jj, jj < ln(c.term), at(c.term, jj) == x))
+                    mem = z3.Exists([jj], z3.And(0 <= jj, jj < ln(c.term), at(c.term, jj) == xj))
                 d = z3.And(*(delta(s) + [mem]))
-                cs = created(s)
-                disj.append(z3.Exists(cs, d) if cs else d)
-            added = z3.Exists([k], z3.Or(*disj) if len(disj) > 1 else disj[0]) if disj else z3.BoolVal(False)
-            j2 = z3.Int(f"j2!acc{fresh_id()}")
-            in_new = z3.Exists([j2], z3.And(ln(oldt) <= j2, j2 < ln(new.term), at(new.term, j2) == x))
-            ft.assume(z3.ForAll([x], in_new == added))
+                disj.append(z3.Exists([k] + created(s), d))
+            src = z3.Or(*disj) if len(disj) > 1 else (disj[0] if disj else z3.BoolVal(False))
+            ft.assume(z3.ForAll([j2], z3.Implies(z3.And(ln(oldt) <= j2, j2 < ln(new.term)), src), patterns=[at(new.term, j2)]))
+            # (2) every contributed element occurs at some new position
+            for idx, (kind, c) in contribs:
+                s = normal_paths[idx][0]
+                j3 = z3.Int(f"j3!acc{fresh_id()}")
+                if kind == "items":
+                    for it in c:
+                        val = ex.to_term(s, it, et)
+                        occurs = z3.Exists([j3], z3.And(ln(oldt) <= j3, j3 < ln(new.term), at(new.term, j3) == val))
+                        ft.assume(z3.ForAll([k] + created(s), z3.Implies(z3.And(*delta(s)), occurs)))
+                else:
+                    jj = z3.Int(f"jj!acc{fresh_id()}")
+                    occurs = z3.Exists([j3], z3.And(ln(oldt) <= j3, j3 < ln(new.term), at(new.term, j3) == at(c.term, jj)))
+                    ft.assume(z3.ForAll([k, jj] + created(s), z3.Implies(z3.And(*(delta(s) + [0 <= jj, jj < ln(c.term)])), occurs)))
         ft.heap[hid] = ListObj(sv=new)
 
     # ------------------------------------------------------------------------------------------
